@@ -25,6 +25,10 @@ import (
 type Fault struct {
 	Pos  int    `json:"pos"`  // index of the received line (0 = first line ever received)
 	Kind string `json:"kind"` // error | garbage | badecho | stall | close | status | info | warning
+	// Chg, if set, replaces Pos: the fault hits the configuration-mode
+	// change line with this index (counted like Banner.Chg); only the
+	// output kinds error and garbage.
+	Chg *int `json:"chg,omitempty"`
 }
 
 type Banner struct {
@@ -162,7 +166,7 @@ func (s *sim) readLine() (string, bool) {
 
 func (s *sim) faultAt(n int) string {
 	for _, f := range s.plan.Faults {
-		if f.Pos == n {
+		if f.Chg == nil && f.Pos == n {
 			return f.Kind
 		}
 	}
@@ -417,8 +421,16 @@ func (s *sim) handleCisco(n int, line, kind string) bool {
 	_ = hasDo
 	isChange := s.mode == "config" && !hasDo && lookup != "end" && lookup != "" &&
 		!(s.plan.Family == "asa" && lookup == "terminal width 511") && !s.iosPrepare(lookup)
+	if kind == "" && isChange {
+		for _, f := range s.plan.Faults {
+			if f.Chg != nil && *f.Chg == s.nChg && (f.Kind == "error" || f.Kind == "garbage") {
+				kind = f.Kind
+			}
+		}
+	}
 	// ---- echo, possibly garbled by a reload banner
 	echoed := false
+	faultOut, faultDone := "", false
 	if ios && isChange {
 		for _, b := range s.plan.Banners {
 			if b.Chg != s.nChg {
@@ -446,7 +458,11 @@ func (s *sim) handleCisco(n int, line, kind string) bool {
 				// banner, fresh prompt, then the echo
 				s.write(ban + "\n" + s.prompt())
 			case "after", "after-prompt":
-				s.write(line + "\n" + ban)
+				// The command is processed synchronously: whatever it
+				// prints follows its echo, the asynchronous banner comes
+				// behind that.
+				faultOut, faultDone = s.outputFault(n, kind), true
+				s.write(line + "\n" + faultOut + ban)
 				if b.Form == "after-prompt" {
 					s.write("\n" + s.prompt())
 				}
@@ -461,13 +477,20 @@ func (s *sim) handleCisco(n int, line, kind string) bool {
 		s.log(event{Ev: "exit", N: n})
 		return true
 	}
-	out := s.outputFault(n, kind)
+	out := ""
+	if !faultDone {
+		out = s.outputFault(n, kind)
+	}
+	_ = faultOut
 	res := "readonly"
 	msg := ""
 	switch {
 	case kind == "error" || kind == "garbage":
 		// The device rejected the line: no effect.
 		res = "fault:" + kind
+		if isChange {
+			s.nChg++
+		}
 	case lookup == "":
 	case lookup == "enable" && s.mode == "":
 		if s.plan.EnablePass {
